@@ -332,4 +332,21 @@ def run(rep, tier):
     rep.ob("R14.7", "verify-uses-constant-time-eq|ApiKeyHash::verify", bool(ver.calls_named(r"api::constant_time_eq$")) and
            not ver.calls_named(r"PartialEq.*::(eq|ne)$"),
            "key digests are compared through constant_time_eq only", ver.file + ":%d" % ver.line)
+    # ------------------------------------------------------------------ R14.8 key changes are durable before they are acknowledged
+    rep.rule("R14.8", "persist_api_keys writes the current key table to the primary database on every path to Ok (an empty table included: "
+                      "revoking the last key must overwrite the stored hash, or the revoked key is accepted again after a restart)", floor=1)
+    pk = prog.fn("anda_db_server::state::AppState::persist_api_keys")
+    rep.saw(pk, len(pk.events))
+    sv = pk.calls_named(r"AndaDB::save_extension(_from)?$|Collection::save_extension(_from)?$")
+    okt = set()
+    for e in sv:
+        okt |= set(pk.result_edges(e)[0])
+        # `if let Some(db) = primary && let Err(err) = save(..).await { return Err } Ok(())`: the Ok edge is the non-Err continuation
+    none_t = [m["None"] for (sb, place, adt, m, els) in pk.variant_edges() if adt == "core::option::Option" and "None" in m
+              and "databases" in pk.slice_fields({"c": {"l": place.l}}, through=lambda ev: True)]
+    okret = [b for b in pk.live_blocks() for st in pk.stmts(b) if st[0] == "A" and st[1]["l"] == 0 and not st[1].get("p")
+             and st[2]["k"] == "agg" and st[2]["a"].get("def") == "core::result::Result" and st[2]["a"].get("v") == "Ok"]
+    rep.ob("R14.8", "persist-writes-on-every-ok-path|persist_api_keys", bool(sv) and bool(okt) and bool(okret) and pk.must_pass(okt | set(none_t), okret),
+           "persist_api_keys can return Ok without having written the key table to the primary database (and a primary database exists)",
+           sv[0].where() if sv else pk.file + ":%d" % pk.line)
     return rep.finish(EXPLAIN)
